@@ -355,11 +355,24 @@ def desugar_combinators(F):
                 continue
             clo = _closure_of(b, t['args'][1])
             cb = F.bodies.get(clo[0]) if clo else None
-            if cb is None or cb.get('coroutine') or len(cb['blocks']) > MAX_BLOCKS:
+            # a variant constructor used as the function (`.map(Some)`, `.map_err(MyError::Io)`): f(x) is the aggregate
+            ctor = None
+            a1 = t['args'][1]
+            if clo is None and 'fn' in a1 and 'c' in a1:
+                cp = strip_generics(a1['fn'])
+                if cp in ('core::option::Option::Some', 'core::result::Result::Ok', 'core::result::Result::Err'):
+                    ctor = (cp.rsplit('::', 1)[0], cp.rsplit('::', 1)[1])
+                elif '{' + cp + '}' in a1.get('ty', '') and cp.split('::')[-1][:1].isupper() and len(cp.split('::')) >= 2 and cp.rsplit('::', 1)[0] in F.adts:
+                    adt_ = F.adts[cp.rsplit('::', 1)[0]]
+                    if any(v_.get('n') == cp.split('::')[-1] or v_.get('name') == cp.split('::')[-1] for v_ in adt_.get('variants', [])):
+                        ctor = (cp.rsplit('::', 1)[0], cp.rsplit('::', 1)[1])
+            if ctor is None and (cb is None or cb.get('coroutine') or len(cb['blocks']) > MAX_BLOCKS):
                 continue
             enum, var, how, other = spec
             takes_arg = HAS_PAYLOAD[var]
-            if cb['argc'] != (2 if takes_arg else 1):
+            if ctor is not None and not takes_arg:
+                continue
+            if ctor is None and cb['argc'] != (2 if takes_arg else 1):
                 continue
             ln = t.get('ln', 0)
             recv = t['args'][0]
@@ -381,12 +394,19 @@ def desugar_combinators(F):
             stm = []
             if takes_arg:
                 stm.append({'d': {'l': V}, 'r': {'k': 'use', 'a': {'mv': {'l': R, 'p': [{'dc': var, 'vi': vi_t}, {'f': 0, 'n': '0', 'o': enum}]}}}, 'ln': ln})
-            env_ref = cb['locals'][1]['ty'].startswith('&')
-            E = len(b['locals'])
-            b['locals'].append({'ty': cb['locals'][1]['ty']})
-            stm.append({'d': {'l': E}, 'r': ({'k': 'ref', 'm': cb['locals'][1]['ty'].startswith('&mut'), 'p': {'l': clo[1]}} if env_ref else {'k': 'use', 'a': {'mv': {'l': clo[1]}}}), 'ln': ln})
-            args = [{'mv': {'l': E}}] + ([{'mv': {'l': V}}] if takes_arg else [])
-            b['blocks'].append({'s': stm, 't': {'k': 'call', 'fn': clo[0], 'args': args, 'd': {'l': C}, 't': B + 1, 'u': unwind, 'ln': ln, 'ik': 'item'}})
+            if ctor is not None:
+                ag = _agg(ctor[0], ctor[1], [{'mv': {'l': V}}])
+                if ctor[0] not in VAR:
+                    ag = {'k': 'agg', 'ak': 'adt', 'adt': ctor[0], 'var': ctor[1], 'ops': [{'mv': {'l': V}}]}
+                stm.append({'d': {'l': C}, 'r': ag, 'ln': ln})
+                b['blocks'].append({'s': stm, 't': {'k': 'goto', 't': B + 1, 'ln': ln}})
+            else:
+                env_ref = cb['locals'][1]['ty'].startswith('&')
+                E = len(b['locals'])
+                b['locals'].append({'ty': cb['locals'][1]['ty']})
+                stm.append({'d': {'l': E}, 'r': ({'k': 'ref', 'm': cb['locals'][1]['ty'].startswith('&mut'), 'p': {'l': clo[1]}} if env_ref else {'k': 'use', 'a': {'mv': {'l': clo[1]}}}), 'ln': ln})
+                args = [{'mv': {'l': E}}] + ([{'mv': {'l': V}}] if takes_arg else [])
+                b['blocks'].append({'s': stm, 't': {'k': 'call', 'fn': clo[0], 'args': args, 'd': {'l': C}, 't': B + 1, 'u': unwind, 'ln': ln, 'ik': 'item'}})
             # block B+1: wrap the closure result
             if how == 'wrap':
                 rv = _agg(enum, var, [{'mv': {'l': C}}])
@@ -409,7 +429,7 @@ def desugar_combinators(F):
             b['blocks'].append({'s': stm, 't': {'k': 'goto', 't': cont, 'ln': ln}})
             blk['t'] = {'k': 'switch', 'd': {'mv': {'l': D}}, 'dty': 'isize', 'ts': [[vi_t, B]], 'o': B + 2, 'ln': ln}
             # expand the closure call
-            if not _inline_site(b, B, cb):
+            if ctor is None and not _inline_site(b, B, cb):
                 raise RuntimeError('cannot inline closure %s' % clo[0])
             n += 1
     return n
